@@ -199,6 +199,17 @@ def main():
         except CaseTimeout:
             res = {'status': 'error', 'error': 'case watchdog (%ds)' % case_timeout}
         except Exception as e:
+            cmod = sys.modules.get('rv.contracts')
+            if cmod is not None and (isinstance(e, cmod.ContractBroken) or cmod.LAST_BROKEN):
+                names = sorted(set(cmod.LAST_BROKEN)) or [getattr(e, 'name', '?')]
+                res = {'status': 'violation', 'mechanism': 'contract:' + '+'.join(names),
+                       'detail': {'what': 'post-condition of %s failed during the case' % names,
+                                  'times': len(cmod.LAST_BROKEN), 'raised': type(e).__name__},
+                       'sig': 'contract', 'nontrivial': True}
+                res['idx'] = idx
+                res['spec'] = spec
+                emit(res)
+                continue
             tb = traceback.extract_tb(e.__traceback__)
             where = ''
             for fr in reversed(tb):
